@@ -35,6 +35,35 @@ for crate, f in fx.items():
                     callers.setdefault(strip_generics(c), set()).add(me)
 for k, v in fns.items():
     v["callers"] = sorted(callers.get(k, ()))
+# canonical forms: the two-operand expressions (operand order as written at the pin) and the user variable
+# names of every function, in the three expression-building modes the rules use
+import re
+import core
+from core import Program, ExprBuilder, binop_key
+
+core.set_canon({}, {})
+prog = Program(fx)
+binops = {}
+varnames = {}
+for f in prog.by_norm.values():
+    key = (f.root or f.norm) if f.kind == "Closure" else f.norm
+    vs = varnames.setdefault(key, set())
+    for vn, l, pj in f.var_places:
+        if not pj:
+            vs.add(re.sub(r"__\d+$", "", vn))
+    ks = binops.setdefault(key, set())
+    for mode in ({"inline": True, "user_stop": False}, {"inline": True, "user_stop": True}, {"inline": False, "user_stop": False}):
+        eb = ExprBuilder(prog, f, **mode)
+        for b in f.live_blocks():
+            for st in f.blocks[b]["stmts"]:
+                if st["k"] == "assign" and st["rv"]["k"] == "binop":
+                    e = eb.rvalue(st["rv"])
+                    ks.add(binop_key(e[1], e[2], e[3]))
+            t = f.blocks[b]["term"]
+            if t["k"] == "call":
+                e = eb.call(b, t)
+                if e[0] == "call" and (e[1] or "").split("::")[-1] in ("min", "max") and len(e[3]) == 2 and ("cmp" in (e[1] or "")):
+                    ks.add(binop_key("call:" + e[1].split("::")[-1], e[3][0], e[3][1]))
 head = subprocess.run(["git", "-C", "/repo", "rev-parse", "HEAD"], stdout=subprocess.PIPE, text=True).stdout.strip()
-json.dump({"repo_commit": head, "functions": sorted(fns), "fn_info": fns, "adts": adts}, open(os.path.join(V, "sa", "known_fns.json"), "w"), indent=0, sort_keys=True)
+json.dump({"repo_commit": head, "functions": sorted(fns), "fn_info": fns, "adts": adts, "binops": {k: sorted(v) for k, v in binops.items() if v}, "vars": {k: sorted(v) for k, v in varnames.items()}}, open(os.path.join(V, "sa", "known_fns.json"), "w"), indent=0, sort_keys=True)
 print(len(fns), "functions,", len(adts), "ADTs at", head)
